@@ -101,6 +101,16 @@ func Props(c *Ctx) map[string]*Prop {
 	add(&Prop{ID: "C03",
 		Explanation: "Decides only that every syntax error value is located: built with the caller's name and a recorded, non-zero position expression, and that Lex records the position of every token it delivers. Rejection of ill-formed programs itself (language recognition) is not decidable structurally.",
 		Rules: []Rule{ruleEF6()}})
+	add(&Prop{ID: "C18",
+		Explanation: "Decides purity, determinism and error reporting of the printer structurally: its only AST writes are the hide/undo idiom and every hide is undone by a deferred closure on all paths (PU1); nothing reachable from Fprint is a source of nondeterminism (PU2); all output goes through one buffered writer whose sticky error is returned through print, Config.Fprint and Fprint (EF5); here-document frames are balanced (PU8). That the output is a fix-point of print∘parse is a value-level property and is not decided.",
+		Assumptions: []string{"bufio.Writer's sticky-error contract"},
+		Rules: []Rule{rulePU1(), rulePU2(), ruleEF5(), rulePU8()}})
+	add(&Prop{ID: "C20",
+		Explanation: "Decides the write discipline of the variable store for every site: who may write vars/Args/Opts/Aliases (PU4), the read-only guard in Set (PU5), the exact set of Set callers and no Unset caller (PU6), no error return after an assignment in expandParam (PU7), no store into the AST by the expander and none into an ExecEnv by the parser (PU3), and agreement of the special-parameter sets (TB8). That Get/Walk behave as a map after arbitrary histories is a value-level property and is not decided.",
+		Rules: []Rule{rulePU3(), rulePU4(), rulePU6(), ruleTB8(), ruleGR1("interp")}})
+	add(&Prop{ID: "C05",
+		Explanation: "Decides only side conditions of the print/parse round trip: every semantic AST field and every Config field is read by the printer (TB6); pending here-document frames are balanced on every path under every combination of the style bits that guard them (PU8); the operator sets of scanner and expander/printer agree (TB10); nil-encoded fields are tested against nil (TB13); token widths in End() match the spellings (TB5 is under C04). Whether printed text re-parses to the same tree is not decidable structurally and is not claimed.",
+		Rules: []Rule{ruleTB6(), rulePU8(), ruleTB10(), ruleTB13(), rulePF3("printer")}})
 	add(&Prop{ID: "DEVT", Explanation: "dev", Rules: []Rule{ruleTB5(), ruleTB6(), ruleTB7(), ruleTB8(), ruleTB10(), ruleTB13(), ruleTB9a("parser", "parser.(*lexer).scanOp", 15)}})
 	add(&Prop{ID: "DEVG", Explanation: "dev", Rules: []Rule{ruleGR1("parser", "interp"), ruleGR2("parser", "interp"), ruleGR3(), ruleGR4(), ruleGR5(), ruleGR6()}})
 	return m
